@@ -968,7 +968,9 @@ func (in *Interp) spawn(fr *frame, cc *ssa.CallCommon) {
 	}
 	switch policy {
 	case "inline":
+		in.taskDepth++
 		in.invoke(fn, args, cc, nil)
+		in.taskDepth--
 	case "after", "pending":
 		in.tasks = append(in.tasks, &task{fn: fn, args: args, call: cc, name: name, after: policy == "after" && in.Cfg.GoPolicy != "after"})
 	case "drop":
@@ -996,7 +998,9 @@ func (in *Interp) runTask(includeAfter bool) bool {
 	k := idx[in.choose(len(idx))]
 	t := in.tasks[k]
 	in.tasks = append(append([]*task(nil), in.tasks[:k]...), in.tasks[k+1:]...)
+	in.taskDepth++
 	in.invoke(t.fn, t.args, t.call, nil)
+	in.taskDepth--
 	return true
 }
 
